@@ -82,6 +82,9 @@ def run(ctx):
             lhs = rng.choice(LITS)
             isl, sform = ev.is_literal(lhs)
             want_val = sform if (isl and rng.random() < 0.6) else str(rng.choice(SCALARS))
+            if isl and sform and rng.random() < 0.3:
+                # a proper part of the literal's string form (or nothing) is not the literal
+                want_val = rng.choice([sform[:-1], sform[1:], sform[:1], '', sform + sform[-1]])
         else:
             lhs = '.'.join(rng.choice(keys) for _ in range(rng.randint(1, 4)))
             reached = []
@@ -130,6 +133,11 @@ def run(ctx):
         c = ec.enforce_case(rules, {'by': 'name', 'name': 'p:x'}, target, creds, dflt=('opt', None), want='c05')
         cases.append(c)
     ec.set_debug(False)
+    # a list is matched element by element, never as a whole: the string form of the whole list is no match
+    for L in ([], [1, 2], ['v'], [None], [[1]], [True], [{'c': 'v'}]):
+        for creds, lhs in (({'a': {'b': L}, 'roles': []}, 'a.b'), ({'ids': L, 'roles': []}, 'ids'), ({'a': [{'b': L}], 'roles': []}, 'a.b')):
+            for tv in (str(L), L):
+                cases.append(ec.enforce_case([('p:x', ev.generic(lhs, ev.ph('t')))], {'by': 'name', 'name': 'p:x'}, {'t': tv}, creds, dflt=('opt', None), want='c05'))
     # list elements of every scalar kind, the falsy ones too: an element matches by its string form
     for falsy in (0, 0.0, False, None, '', 1, True, 'v'):
         for creds in ({'a': {'b': [falsy, 'x']}, 'roles': []}, {'a': [{'b': falsy}, {'b': 'y'}], 'roles': []}, {'a': {'b': [['x'], falsy]}, 'roles': []}):
